@@ -481,6 +481,13 @@ def run(ck):
             exprs.append(("bin", "Add", ("const", 10), ("cmp", perm[0], [(op, perm[1]), (op, perm[2])])))
         for perm in itertools.permutations(leaves, 2):
             exprs.append(("cmp", perm[0], [(op, perm[1])]))
+    # ... and chains mixing two operators (c >= b > a, a <= b < c, a < b >= c, ...): mirrored spellings of one chain must
+    # keep their values apart unless they really are the same predicate
+    for op1 in CMP:
+        for op2 in CMP:
+            if op1 != op2:
+                for perm in itertools.permutations(leaves):
+                    exprs.append(("cmp", perm[0], [(op1, perm[1]), (op2, perm[2])]))
     for f in FUNCS:
         if f != "abs":
             for perm in itertools.permutations(leaves, 2):
@@ -572,10 +579,70 @@ def run(ck):
                 continue  # operands are themselves signature-equal: not a change
         ck.fail_input("C12:mutation-keeps-signature:" + kind, "a %s mutation left the signature unchanged" % kind,
                       {"expr": src(e), "mutated": src(m)})
+    # ---------- two normalisations at overlapping times: call A is suspended at each of its source lines inside the module
+    #            while call B (another expression) runs to completion; both must return what they return alone
+    ck.notes["overlapping_normalisations"] = overlapping_calls_oracle(ck, 160 if thorough else 60)
     # ---------- the signature a sweep REPORTS is the signature of what it EVALUATES (also after the caller's mapping changed)
     n_rep = reported_signature_oracle(ck, rng, rands, 40 if thorough else 12)
     ck.notes["reported_signature_runs"] = n_rep
     ck.cov["trusted_base"] = TRUSTED
+
+
+def overlapping_calls_oracle(ck, budget):
+    import sys
+    import threading
+    import semantiva.metadata.semantic_id as sid
+    mod_file = sid.__file__
+    pairs = [("a + b*c + d + e*f*g + h", "p*q + r + s*t*u + v + w"), ("x*y*z*w + 1", "k + m + n + 2*j"), ("(a + b)*(c + d) + e", "min(p + q, r*s) + t")]
+    runs = 0
+    for ea, eb in pairs:
+        want_a, want_b = impl_sig(ea), impl_sig(eb)
+
+        def one(k):
+            count, got_b, thr = [0], [None], [None]
+
+            def run_b():
+                try:
+                    got_b[0] = impl_sig(eb)
+                except Exception as ex:  # noqa
+                    got_b[0] = "raises %r" % (ex,)
+
+            def local(fr, ev, a):
+                if ev == "line":
+                    count[0] += 1
+                    if count[0] == k:
+                        thr[0] = threading.Thread(target=run_b, daemon=True)
+                        thr[0].start()
+                        thr[0].join(5)          # (a lock held by A would make B wait: A goes on after the timeout)
+                return local
+
+            def tracer(frame, event, arg):
+                return local if frame.f_code.co_filename == mod_file else None
+            sys.settrace(tracer)
+            try:
+                try:
+                    got_a = impl_sig(ea)
+                except Exception as ex:  # noqa
+                    got_a = "raises %r" % (ex,)
+            finally:
+                sys.settrace(None)
+            if thr[0] is not None:
+                thr[0].join(10)
+            return count[0], got_a, got_b[0]
+        total, _, _ = one(-1)
+        step = max(1, total // max(1, budget // len(pairs)))
+        for k in range(1, total + 1, step):
+            _, got_a, got_b = one(k)
+            runs += 1
+            if got_a != want_a or (got_b is not None and got_b != want_b):
+                ck.fail_input("C12:overlapping-normalisations-disturb-each-other",
+                              "normalising %r is suspended at its %d-th source line inside semantic_id.py while %r is normalised by another thread: "
+                              "%s" % (ea, k, eb, "the suspended call returns another signature than alone" if got_a != want_a else
+                                      "the other call returns another signature than alone"),
+                              {"kind": "overlap", "expr1": ea, "expr2": eb, "line_event": k, "alone": [want_a[:200], want_b[:200]],
+                               "overlapped": [str(got_a)[:200], str(got_b)[:200]]})
+                return runs
+    return runs
 
 
 def reported_signature_oracle(ck, rng, rands, n):
